@@ -726,8 +726,12 @@ def ec2(repo: Repo) -> RuleResult:
         undecided = None
         for fl in elem_flags:
             for tf in (alias_targets if fl == F["BP_TYPE_ALIAS"] else [0]):
-                for nb in (1, 2, 7, 8, 9, 12, 15, 16, 17, 24, 31, 32, 33, 48, 63, 64, 128):
-                    repl = by_name({f"{ET}.flag": fl, f"{ET}.to_flag": tf, f"{ET}.nbits": nb, "descriptor.extensible": 0})
+                for nb, esz in [(nb_, sz_) for nb_ in (1, 2, 7, 8, 9, 12, 15, 16, 17, 24, 31, 32, 33, 48, 63, 64, 128) for sz_ in ((None,) if ((fl != F["BP_TYPE_ALIAS"] or tf != F["BP_TYPE_ARRAY"]) and fl != F["BP_TYPE_MESSAGE"]) or nb_ not in (8, 12, 16, 48, 64) else (None, max(1, nb_ // 8), 2 * max(1, nb_ // 8)))]:
+                    # storage size of the element: that of its width for base types; for arrays behind an
+                    # alias and for messages any size can occur (also exactly nbits / 8)
+                    base_sz = 1 if nb <= 8 else 2 if nb <= 16 else 4 if nb <= 32 else 8
+                    vals_ = {f"{ET}.flag": fl, f"{ET}.to_flag": tf, f"{ET}.nbits": nb, "descriptor.extensible": 0, f"{ET}.size": esz if esz is not None else base_sz}
+                    repl = by_name(vals_)
                     feas = []
                     for p_ in paths:
                         vals = [lit_value(k_, t_, repl) for k_, t_ in p_.guards]
@@ -777,7 +781,12 @@ def ec2(repo: Repo) -> RuleResult:
                                 if h.name == "BpEndecodeInt" and (h.args[0] != size or replace_atoms(h.args[1], repl) != K(nb)):
                                     bad(f"c:elements:nbits:{vname}", "a signed element is not processed with (element size, element width)", construct=repr(h))
                         elif not tops and not elem_loops:
-                            pass  # a flag without handler here: CA2 judges coverage
+                            # no handler at all: CA2 judges coverage - unless the path moves the stream cursor itself
+                            # (a non-extensible array has no skip): then the elements were copied by some other route
+                            moved = [e for e in p_.effects if e.kind in ("setattr", "store") and ("ctx.i" in e.name or e.name == "i")]
+                            if moved:
+                                batch_points += 1
+                                bad(f"c:batch:direct:{vname}", f"for element flag={byv.get(fl, fl)}, to_flag={byv.get(tf, tf) if tf else '-'}, element_nbits={nb} the array is moved without the element handlers (the stream cursor is advanced directly): neither the per-element staging of a big-endian build nor the type of the element is taken into account", construct=repr(moved[0]), witness="type Flags = bool[8]; Flags[3] on a big-endian build: 8 wire bits are not one byte of memory")
                         else:
                             bad(f"c:elements:{vname}", "elements are handled both by a contiguous copy and by an element loop on one path", construct=f"flag={byv.get(fl, fl)}, nbits={nb}")
                 if undecided:
@@ -1481,6 +1490,21 @@ def cc4(repo: Repo) -> RuleResult:
         r = role_of(a)
         if r is not None:
             return r, None
+        # a quantity of the same node, but not the plain one: format_int_value(t.nbits() - ...)
+        mm = _re.fullmatch(r"self\.format_int_value\((.*)\)", a)
+
+        def _one_call(inner: str) -> bool:
+            d_ = 0
+            for ch in inner:
+                d_ += {"(": 1, ")": -1}.get(ch, 0)
+                if d_ < 0:
+                    return False
+            return d_ == 0
+
+        if mm and _one_call(mm.group(1)):
+            for q_, role_ in (("t.nbits()", "nbits"), ("t.nfields()", "nfields"), ("t.cap", "capacity")):
+                if q_ in mm.group(1) and mm.group(1) != q_:
+                    return role_, f"the {role_} argument is `{mm.group(1)}`, not `{q_}`: the runtime reads it as the item's own {role_} (for an extensible item nbits includes the 16-bit prefix and is what the prefix carries)"
         mm = _re.fullmatch(r"self\.format_sizeof\((.*)\)", a)
         if mm:
             if meth in SIZE_OF and mm.group(1) not in SIZE_OF[meth]:
@@ -1515,25 +1539,26 @@ def cc4(repo: Repo) -> RuleResult:
         except Inconclusive as e:
             res.unsure(f"CC4: {e}")
             continue
-        cs = [x for t_ in texts for x in ctor_calls_in_text(t_, "") if x[0] == mname]
-        if len(cs) != 1 or len(texts) != 1:
-            res.unsure(f"CC4: {qual}: `{mname}(...)` is not the single text returned ({texts})")
+        per_text = [[x for x in ctor_calls_in_text(t_, "") if x[0] == mname] for t_ in texts]
+        if not texts or any(len(c_) != 1 for c_ in per_text):
+            res.unsure(f"CC4: {qual}: `{mname}(...)` is not the text returned ({texts})")
             continue
-        args = cs[0][1]
-        judged = [c_role(meth, a) for a in args]
-        roles = [r for r, _ in judged]
-        res.inst(part="template", site=qual, macro=mname, roles=roles, macro_params=params)
-        if len(roles) != len(params):
-            res.bad(Finding("CC4", fi.rel, fi.node.lineno, qual, f"{mname}({', '.join(args)})", f"the template passes {len(roles)} arguments, the macro takes {params}", tag=f"{qual}:arity"))
-            continue
-        for k, ((r, defect), pn) in enumerate(zip(judged, params)):
-            if r.startswith("?"):
-                res.unsure(f"CC4: {qual}: argument {k} (`{args[k]}`) has no recognised provenance")
-                break
-            if pn not in ROLE_EQUIV.get(r, {r}):
-                res.bad(Finding("CC4", fi.rel, fi.node.lineno, qual, f"{mname}({', '.join(args)})", f"argument {k + 1} carries `{r}` but macro parameter {k + 1} is `{pn}`", witness="generated descriptors carry swapped nbits / size / extensible / capacity", tag=f"{qual}:{k}"))
-            elif defect:
-                res.bad(Finding("CC4", fi.rel, fi.node.lineno, qual, args[k], defect, witness="data pointers of array elements advance by a wrong stride", tag=f"{qual}:sizeof"))
+        for cs in per_text:
+            args = cs[0][1]
+            judged = [c_role(meth, a) for a in args]
+            roles = [r for r, _ in judged]
+            res.inst(part="template", site=qual, macro=mname, roles=roles, macro_params=params)
+            if len(roles) != len(params):
+                res.bad(Finding("CC4", fi.rel, fi.node.lineno, qual, f"{mname}({', '.join(args)})", f"the template passes {len(roles)} arguments, the macro takes {params}", tag=f"{qual}:arity"))
+                continue
+            for k, ((r, defect), pn) in enumerate(zip(judged, params)):
+                if r.startswith("?"):
+                    res.unsure(f"CC4: {qual}: argument {k} (`{args[k]}`) has no recognised provenance")
+                    break
+                if pn not in ROLE_EQUIV.get(r, {r}):
+                    res.bad(Finding("CC4", fi.rel, fi.node.lineno, qual, f"{mname}({', '.join(args)})", f"argument {k + 1} carries `{r}` but macro parameter {k + 1} is `{pn}`", witness="generated descriptors carry swapped nbits / size / extensible / capacity", tag=f"{qual}:{k}"))
+                elif defect:
+                    res.bad(Finding("CC4", fi.rel, fi.node.lineno, qual, args[k], defect, witness="data pointers of array elements advance by a wrong stride / the 16-bit prefix carries a wrong size", tag=f"{qual}:{r}"))
     # field descriptor item: fds[index of the item] = BpMessageFieldDescriptor((void *)&(m->field), bp type of the same field, name of the same field)
     fi = m.func("impls/c/renderer_c.py", "BlockMessageProcessorFieldItem.render")
     res.inst(part="template", site=fi.qual, what="BpMessageFieldDescriptor(data, type, name)")
